@@ -15,20 +15,20 @@ import (
 )
 
 type evalModel struct {
-	w  *World
-	e  *Engine
-	ok bool
+	w   *World
+	e   *Engine
+	ok  bool
 	why string
 
 	EVAL, evalAst, doFn, macroexpand, quasiquote, qqLoop, isMacroCall, apply *ssa.Function
-	newSub, newSubBinds                                                     *ssa.Function
+	newSub, newSubBinds                                                      *ssa.Function
 
 	astParam, envParam, ctxParam *ssa.Parameter
 	envCell, ctxCell             *ssa.Alloc // nil when the parameter is not spilled
 	envPhi                       *ssa.Phi   // the loop-carried scope when it is not spilled to a cell
 	header                       *ssa.BasicBlock
 	astPhi                       *ssa.Phi
-	dispatch                     ssa.Value            // the string the special-form switch compares
+	dispatch                     ssa.Value // the string the special-form switch compares
 	regions                      map[string]map[*ssa.BasicBlock]bool
 	regionNames                  []string
 	defaultRegion                map[*ssa.BasicBlock]bool
@@ -967,7 +967,6 @@ func (c *classifier) doResult(call *ssa.Call) cls {
 	}
 	return r
 }
-
 
 // regionBlocks: the blocks of a special form's region - in EVAL and in the evaluation helpers called from it.
 func (m *evalModel) regionBlocks(name string) []*ssa.BasicBlock {
